@@ -59,4 +59,51 @@ EncLen(v, esc) ==
                            f[i \in 0..n] == IF i = 0 THEN 0
                                             ELSE f[i-1] + 2 + EncCpsLen(v.m[i].k, esc) + 1 + EncLen(v.m[i].v, esc)
                        IN  2 + f[n] + (IF n > 1 THEN n - 1 ELSE 0)
+
+(***************************************************************************)
+(* Enc(v, esc): the bytes the encoder writes for v.                        *)
+(***************************************************************************)
+RECURSIVE EncCpsBytes(_, _)
+EncCpsBytes(s, esc) == IF s = <<>> THEN <<>> ELSE EncCp(s[1], esc) \o EncCpsBytes(Tail(s), esc)
+
+RECURSIVE Enc(_, _)
+Enc(v, esc) ==
+  CASE v.t = "null" -> <<110,117,108,108>>
+    [] v.t = "bool" -> IF v.b THEN <<116,114,117,101>> ELSE <<102,97,108,115,101>>
+    [] v.t = "num"  -> v.lit
+    [] v.t = "str"  -> EncStr(v.cp, esc)
+    [] v.t = "arr"  -> LET n == Len(v.e)
+                           f[i \in 0..n] == IF i = 0 THEN <<>>
+                                            ELSE f[i-1] \o (IF i > 1 THEN <<44>> ELSE <<>>) \o Enc(v.e[i], esc)
+                       IN  <<91>> \o f[n] \o <<93>>
+    [] v.t = "obj"  -> LET n == Len(v.m)
+                           f[i \in 0..n] == IF i = 0 THEN <<>>
+                                            ELSE f[i-1] \o (IF i > 1 THEN <<44>> ELSE <<>>)
+                                                 \o EncStr(v.m[i].k, esc) \o <<58>> \o Enc(v.m[i].v, esc)
+                       IN  <<123>> \o f[n] \o <<125>>
+
+(***************************************************************************)
+(* Go encodes a map with its keys sorted (by bytes = by code points).      *)
+(***************************************************************************)
+RECURSIVE SeqLess(_, _)
+SeqLess(a, b) ==
+  IF a = <<>> THEN b # <<>>
+  ELSE IF b = <<>> THEN FALSE
+  ELSE IF a[1] # b[1] THEN a[1] < b[1]
+  ELSE SeqLess(Tail(a), Tail(b))
+
+RECURSIVE InsertMem(_, _)
+InsertMem(sorted, m) ==
+  IF sorted = <<>> THEN <<m>>
+  ELSE IF SeqLess(m.k, sorted[1].k) THEN <<m>> \o sorted
+  ELSE <<sorted[1]>> \o InsertMem(Tail(sorted), m)
+
+RECURSIVE SortKeys(_)
+SortKeys(v) ==
+  CASE v.t = "obj" -> LET n == Len(v.m)
+                          f[i \in 0..n] == IF i = 0 THEN <<>> ELSE InsertMem(f[i-1], Mem(v.m[i].k, SortKeys(v.m[i].v)))
+                      IN  Obj(f[n])
+    [] v.t = "arr" -> Arr([i \in 1..Len(v.e) |-> SortKeys(v.e[i])])
+    [] OTHER -> v
 =============================================================================
+
